@@ -219,7 +219,12 @@ def check_regrid(case, ctx):
             hin = R.Spec(E, f, sd, dd=sdd).hs()
             hraw = R.Spec(want, of, od, dd=odd).hs()
             hout = R.Spec(O, of, od, dd=odd).hs()
-            if hraw > 0 and hin > 0:
+            if hin > 0 and hraw <= 1e-6 * hin:
+                # what survives the interpolation is (next to) nothing - e.g. energy only in directions the coarser target skips,
+                # plus a weight of 1e-19 from a node 2e-17 deg away; rescaling that to the source Hs amplifies rounding by 1e38:
+                # the variance clause is not decidable there
+                ctx.label("m0-ill-conditioned(skipped)")
+            elif hraw > 0 and hin > 0:
                 if abs(hout - hin) > 4 * rt * hin:
                     raise Violation("m0", "Hs of source %r, Hs after interp(maintain_m0=True) %r at %s" % (hin, hout, dict(zip(lead, idx))))
                 # shape must be the bilinear interpolant up to the single factor
